@@ -40,8 +40,9 @@ def _ops(version: str):
     vtype = st.sampled_from((3, 23))
     value = st.sampled_from(("0", "1", "2", "3", "x;y", ""))
     send = st.builds(
-        lambda n, c, t, v, a, b: ["send", [n, c, 1, a, t, v], b],
-        node, child, vtype, value, st.sampled_from((0, 0, 1)), st.sampled_from((None, None, None, None, True, False)),
+        # (the application may keep one Message object per command and change its payload before each send: "reuse")
+        lambda n, c, t, v, a, b, r: ["send", [n, c, 1, a, t, v], b] + (["reuse"] if r else []),
+        node, child, vtype, value, st.sampled_from((0, 0, 1)), st.sampled_from((None, None, None, None, True, False)), st.sampled_from((False, False, True)),
     )
     # ... and what else an application sends to the same nodes: value requests for the same child/type, internal commands
     send_other = st.one_of(
@@ -141,6 +142,18 @@ def enumerate_cases(tier: str):
                               ["send", [11, 255, 3, 0, 13, ""], None], ["send", [11, 255, 3, 0, 18, ""], None], ["send", [1, 2, 2, 0, 3, ""], None]):
                     ops = [["send", [11, 1, 1, 0, 3, value], None], ["send", [1, 2, 1, 0, 3, value], None], event, ["rx", wake], ["rx", wake]]
                     yield {"version": version, "registry": registry, "ops": ops, "listen_mode": mode}
+    # every value type (the numbers overlap with internal type numbers, e.g. 19): parked, the node presents a child / reports / asks, then wakes
+    for version in ("2.0", "2.2"):
+        wake = "11;255;3;0;32;500\n" if version == "2.2" else "11;255;3;0;22;7\n"
+        for vtype in list(range(0, 57)) + [99, 255]:
+            ops = [["send", [11, 1, 1, 0, vtype, "1"], None], ["rx", "11;1;0;0;3;relay\n"], ["rx", f"11;1;1;0;{vtype};0\n"], ["rx", "11;255;3;0;0;55\n"], ["rx", wake], ["rx", wake]]
+            yield {"version": version, "registry": registry, "ops": ops, "listen_mode": "persistent" if vtype % 2 else "fresh"}
+    # one Message object re-used for successive commands (payload changed in between), parked and direct
+    for version in ("1.5", "2.0", "2.2"):
+        wake = "11;255;3;0;32;500\n" if version == "2.2" else "11;255;3;0;22;7\n"
+        ops = [["send", [11, 1, 1, 0, 3, "1"], None, "reuse"], ["send", [11, 1, 1, 0, 3, "0"], None, "reuse"], ["rx", wake], ["send", [11, 1, 1, 0, 3, "55"], None, "reuse"], ["rx", wake],
+               ["send", [1, 2, 1, 0, 3, "a"], False, "reuse"], ["send", [1, 2, 1, 1, 3, "b"], False, "reuse"], ["rx", wake]]
+        yield {"version": version, "registry": registry, "ops": ops, "listen_mode": "fresh"}
     # the gateway's version (and with it the protocol module) changes between the send and the wake
     for first in (None, "1.5", "2.0", "2.1", "2.2"):
         for then in ("2.0.0", "2.1.1", "2.2.0"):
